@@ -20,6 +20,8 @@ pub struct EbrMirror {
     pub global_addr: usize,
     pub last_global: u64,
     pub locals: BTreeMap<usize, LocalMirror>,
+    /// participants that have been finalized (their records must be unlinked and freed later)
+    pub finalized: Vec<usize>,
     pub n_checks: u64,
     pub n_pinned_across_advance: u64,
     pub n_pin_retry: u64,
@@ -120,6 +122,7 @@ impl EbrMirror {
             }
             kind::FINALIZE => {
                 self.locals.remove(&a);
+                self.finalized.push(a);
                 if _b != 0 {
                     self.n_finalize_nonempty += 1;
                     sim().probe("finalize_with_nonempty_bag");
